@@ -45,7 +45,7 @@ Proof. vm_compute. repeat split; reflexivity. Qed.
 (* ------------------------------------------------------------------------------------------------------
    Added in build session 4 (statements re-stated from the proof files by harness tooling; each is closed by
    exact). *)
-From SplipyModel Require Import Proofs.ObjEval Proofs.IdenticalEndToEnd.
+From SplipyModel Require Import Proofs.ObjEval Proofs.IdenticalEndToEnd Transfer.ParamObj Transfer.ParamOps Transfer.ParamOps2.
 Theorem C12_compatible_then_evaluate :
   forall (tol : R) (o1 o2 : obj R) (ts : list R),
          0 < tol ->
@@ -184,4 +184,16 @@ Theorem C12_hypotheses_satisfiable :
   identical_hyps ex_tol ex_o1 ex_o2 0.
 Proof. exact @ex_hyps. Qed.
 Print Assumptions C12_hypotheses_satisfiable.
+
+Theorem C12_executed_is_proved_compatible :
+  forall o1 o2 : obj Q, pairmap objQ2R objQ2R (obj_compatible o1 o2) = obj_compatible (objQ2R o1) (objQ2R o2).
+Proof. exact @obj_compatible_transfer. Qed.
+Print Assumptions C12_executed_is_proved_compatible.
+
+Theorem C12_executed_is_proved_identical :
+  forall (tol : Q) (o1 o2 : obj Q) (direction : option nat),
+         resmap (pairmap objQ2R objQ2R) (obj_make_identical tol o1 o2 direction) =
+         obj_make_identical (Q2R tol) (objQ2R o1) (objQ2R o2) direction.
+Proof. exact @obj_make_identical_transfer. Qed.
+Print Assumptions C12_executed_is_proved_identical.
 
